@@ -76,8 +76,13 @@ func (multi *MultiEpoch) findEpochNumberFromSignature(ctx context.Context, sig s
 			if err != nil {
 				return 0, fmt.Errorf("failed to get epoch %d: %w", epochNumber, err)
 			}
-			if _, err := epoch.FindCidFromSignature(ctx, sig); err == nil {
+			_, err = epoch.FindCidFromSignature(ctx, sig)
+			if err == nil {
 				return epochNumber, nil
+			}
+			if !errors.Is(err, compactindexsized.ErrNotFound) {
+				// the index could not be read (e.g. a truncated file): that is not "not found"
+				return 0, fmt.Errorf("failed to look up the signature in epoch %d: %w", epochNumber, err)
 			}
 			// Not found in this epoch.
 			return 0, ErrNotFound
